@@ -127,6 +127,22 @@ Theorem C01_timeouts_lossless :
 Proof. exact timeouts_lossless. Qed.
 Print Assumptions C01_timeouts_lossless.
 
+(* AEAD nonces: the k-th packet of a key epoch uses iv_after k iv0 (each send encrypts under the
+   current IV and advances it with _inc_iv_counter, which raises at 2^64 instead of wrapping), and
+   these nonces are pairwise distinct *)
+Theorem C01_iv :
+  forall iv k1 k2 a b,
+    iv_ok iv -> iv_after k1 iv = Ok a -> iv_after k2 iv = Ok b -> k1 <> k2 -> a <> b.
+Proof. exact iv_distinct. Qed.
+Print Assumptions C01_iv.
+
+Theorem C01_iv_send :
+  forall P s k iv data rnd w s',
+    p_mode s = Aead k iv -> data <> [] -> send_message P s data rnd = Ok (w, s') ->
+    exists iv', inc_iv iv = Ok iv' /\ p_mode s' = Aead k iv'.
+Proof. exact aead_send_iv. Qed.
+Print Assumptions C01_iv_send.
+
 (* non-vacuity: the laws are satisfiable, and a concrete keyed pair is in sync in each mode *)
 Example C01_laws_satisfiable : prims_ok idP (fun _ _ _ => True) (fun _ _ => True).
 Proof. exact idP_ok. Qed.
